@@ -512,10 +512,15 @@ impl Transport for QuicTransport {
     }
 
     fn negotiate(&mut self, connection_id: ConnectionId) -> crate::Result<()> {
-        let (connection, _address) = self
+        let (connection, address) = self
             .opened_raw
             .remove(&connection_id)
             .ok_or(Error::ConnectionDoesntExist(connection_id))?;
+
+        // The connection was dialed: `on_connection_established()` tells a dialed connection from
+        // an accepted one by its `pending_dials` entry. Without it the connection was reported with
+        // a listener endpoint.
+        self.pending_dials.insert(connection_id, address);
 
         self.pending_connections
             .push(Box::pin(async move { (connection_id, Ok(connection)) }));
